@@ -349,9 +349,12 @@ class FileBufferedCollection(BufferedCollection):
                 collection._flush(force=force)
             except (OSError, MetadataError) as err:
                 issues[collection._filename] = err
-        if not issues:
-            cls._buffered_collections = remaining_collections
-        else:
+        # Collections that remain buffered must stay registered even if some
+        # files could not be flushed, or they would never be flushed (and
+        # their buffer entries never released) when their contexts exit.
+        with cls._BUFFER_LOCK:
+            cls._buffered_collections.update(remaining_collections)
+        if issues:
             raise BufferedError(issues)
 
     @classmethod
